@@ -89,9 +89,9 @@ func coreTerms(n int) []*Expr {
 	return all[:n]
 }
 
-func sel(e *Expr) Selector               { return Selector{Expr: e} }
-func selAgg(e *Expr, a Agg) Selector     { return Selector{Expr: e, Agg: &a} }
-func single(s Selector) *Query           { return &Query{Sels: []Selector{s}} }
+func sel(e *Expr) Selector           { return Selector{Expr: e} }
+func selAgg(e *Expr, a Agg) Selector { return Selector{Expr: e, Agg: &a} }
+func single(s Selector) *Query       { return &Query{Sels: []Selector{s}} }
 func chain2(a Selector, op string, b Selector) *Query {
 	return &Query{Sels: []Selector{a, b}, Ops: []string{op}}
 }
@@ -162,9 +162,9 @@ func aggregators(thorough bool) []Agg {
 // aggSelectors: the selectors aggregators are attached to.
 func aggSelectors(thorough bool) []*Expr {
 	out := []*Expr{
-		leaf("name", "=~", `"op"`),     // every span
-		leaf(".a", "!=", `"zzz"`),      // spans having a
-		leaf("duration", ">=", "1s"),   // duration only: with an attribute aggregator the statement is valid
+		leaf("name", "=~", `"op"`),   // every span
+		leaf(".a", "!=", `"zzz"`),    // spans having a
+		leaf("duration", ">=", "1s"), // duration only: with an attribute aggregator the statement is valid
 		or(leaf(".a", "=", `"foo"`), leaf(".b", "=", "10")),
 	}
 	if thorough {
